@@ -119,6 +119,9 @@ MayStart(i) ==
   \* everything it transitively needs (any input kind) that had work to do is done
   /\ \A p \in UpstreamOf(i) : p \in iv.exp => p \in iv.doneOK
   /\ PoolRoom(i)
+  \* a phony statement that is bound to a pool takes its turn in that pool like a command: what lies behind it is not
+  \* startable while the pool is full
+  /\ \A p \in UpstreamOf(i) : St(g, p).phony => PoolRoom(p)
 
 \* statements whose recorded dependencies ninja did not consult in this invocation (hook at the call site)
 SkipRec == {i \in iv.skipped : UsesDeps(St(g, i)) /\ L[i].rec # {}}
